@@ -12,6 +12,9 @@ source's timeline to within the coarser of the two formats' time resolutions".
                     whole milliseconds); `beat f g` — by at most `f` beats at the tempo in force (StepMania 1/96,
                     BMS 1/192) plus `g` = 1/192 beat for every tempo change before it (the writers snap tempo changes
                     to the same grid), and not at all when the source chart lies on the snap grid (`gridExact`).
+* ties             of several tempo points at one time (osu / Quaver lines, an O2Jam header tempo and a tempo event at
+                    measure 0, `#BPMS` entries at one beat) the LATER one — in file order — is in force
+                    (`lastAtTime`, `lastAtBeat`, `bpmAt`): a zero-length section holds no beats.
 * `CloseTo`         declarative: some pairing (a rearrangement of both row lists) puts every source row next to a
                     target row with the same column (+ shift) and times within the resolution; tempo points are
                     compared as a *timeline* (`normBpms`: time order, a point that repeats the tempo in force is
@@ -74,10 +77,19 @@ def ofSMChart (offsetSec : Rat) (bpms : List (Rat × Rat)) (c : SM.DChart) : ACh
     holds := (ns.filter (fun n => n.kind = SM.Kind.hold)).map (fun n => (n.time, (n.col : Int), n.length))
     bpms := (SM.tempoTimes offsetSec bpms).zip (bpms.map (·.2)) }
 
+/-- of several `#BPMS` entries at one beat the LATER one is in force (StepMania keeps its segments in a sorted list
+and a later entry replaces an earlier one at the same beat; the same rule as for osu / Quaver lines at one time) -/
+def lastAtBeat : List (Rat × Rat) → List (Rat × Rat)
+  | a :: b :: rest => if a.1 = b.1 then lastAtBeat (b :: rest) else a :: lastAtBeat (b :: rest)
+  | l => l
+
+/-- the `#BPMS` entries in beat order (stable), one per beat -/
+def smTempo (b : List (Rat × Rat)) : List (Rat × Rat) := lastAtBeat (isort (fun x y => decide (x.1 ≤ y.1)) b)
+
 /-- one abstract chart per `#NOTES` value; `none` when the text has no usable `#OFFSET` / `#BPMS` -/
 def ofSM (d : SM.Denoted) : Option (List AChart) :=
   match d.offsetSec, d.bpms with
-  | some o, some b => if SM.tempoOk b then some (d.charts.map (ofSMChart o b)) else none
+  | some o, some b => if SM.tempoOk (smTempo b) then some (d.charts.map (ofSMChart o (smTempo b))) else none
   | _, _ => none
 
 def ofBMS (d : BMS.Denotation) : AChart :=
@@ -118,6 +130,11 @@ def dedupBpms (eps : Rat) : Option Rat → List ABpm → List ABpm
 def lastAtTime : List ABpm → List ABpm
   | a :: b :: rest => if a.1 = b.1 then lastAtTime (b :: rest) else a :: lastAtTime (b :: rest)
   | l => l
+
+/-- two tempo points at one time with different tempos (points in time order) -/
+def tieUnequal : List ABpm → Bool
+  | a :: b :: rest => (decide (a.1 = b.1) && decide (a.2 ≠ b.2)) || tieUnequal (b :: rest)
+  | _ => false
 
 /-- the tempo timeline: points in time order, one point per time, repetitions of the tempo in force dropped -/
 def normBpms (eps : Rat) (l : List ABpm) : List ABpm := dedupBpms eps none (lastAtTime (sortBpms l))
